@@ -40,6 +40,7 @@ type tcase struct {
 	form      int
 	direct    bool
 	instant   time.Time
+	prime     lm.Prime // a record logged through another handler right before this one
 }
 
 func (c tcase) render() string {
@@ -119,6 +120,7 @@ func run(c tcase) string {
 		dh := lm.DeriveHandlerWithDecoys(h, c.chain, c.decoys)
 		pc, f, l := lm.CallerPC()
 		file, line = f, l
+		c.prime.Run(c.instant, c.addSource)
 		r := slog.NewRecord(c.instant, c.level, c.msg, pc)
 		r.AddAttrs(lm.Attrs(c.attrs)...)
 		if err := dh.Handle(context.Background(), r); err != nil {
@@ -126,6 +128,7 @@ func run(c tcase) string {
 		}
 	} else {
 		l := lm.DeriveWithDecoys(logger.New(h), c.chain, c.decoys)
+		c.prime.Run(time.Now(), c.addSource)
 		before = time.Now()
 		file, line = lm.Emit(l, c.form, c.level, c.msg, c.attrs)
 		after = time.Now()
@@ -206,6 +209,7 @@ func genCase(t *rapid.T) tcase {
 	if c.direct {
 		c.instant = lm.GenInstant().Draw(t, "instant")
 	}
+	c.prime = lm.GenPrime(genOpts).Draw(t, "prime")
 	if len(c.chain) > 0 {
 		c.decoys = lm.GenDecoys(genOpts, len(c.chain)).Draw(t, "decoys")
 	}
